@@ -54,6 +54,14 @@ def r_expr(e):
     raise ValueError(op)
 
 
+def r_group(p):
+    """a sub-pattern as its own group, so that the rendered text means exactly the nesting of the AST (OPTIONAL, FILTER and
+    BIND act on the whole group they stand in, VALUES joins with it)"""
+    if p["t"] == "bgp":
+        return r_triples(p["triples"])
+    return "{ " + r_pattern(p) + " }"
+
+
 def r_pattern(p):
     t = p["t"]
     if t == "bgp":
@@ -64,16 +72,16 @@ def r_pattern(p):
         return f"{{ {r_pattern(p['a'])} }} UNION {{ {r_pattern(p['b'])} }}"
     if t == "optional":
         f = f" FILTER {r_expr(p['filter'])}" if p.get("filter") else ""
-        return f"{r_pattern(p['a'])} OPTIONAL {{ {r_pattern(p['b'])}{f} }}"
+        return f"{r_group(p['a'])} OPTIONAL {{ {r_pattern(p['b'])}{f} }}"
     if t == "join":
         return f"{{ {r_pattern(p['a'])} }} {{ {r_pattern(p['b'])} }}"
     if t == "filter":
-        return f"{r_pattern(p['p'])} FILTER {r_expr(p['e'])}"
+        return f"{r_group(p['p'])} FILTER {r_expr(p['e'])}"
     if t == "bind":
-        return f"{r_pattern(p['p'])} BIND({r_term(p['e'])} AS ?{p['var']})"
+        return f"{r_group(p['p'])} BIND({r_term(p['e'])} AS ?{p['var']})"
     if t == "values":
         vals = " ".join("UNDEF" if v is None else r_term(v) for v in p["vals"])
-        return f"VALUES ?{p['var']} {{ {vals} }} {r_pattern(p['p'])}"
+        return f"VALUES ?{p['var']} {{ {vals} }} {{ {r_pattern(p['p'])} }}"
     raise ValueError(t)
 
 
@@ -282,7 +290,8 @@ def _instantiate(tpl, mu, fresh, target_default, bmap=None):
         gk = inst(g)
         for s, p, o in ts:
             tr = (inst(s), inst(p), inst(o))
-            if gk is not None and gk[0] == "u" and None not in tr and _legal(*tr):
+            # (rdflib stores allow blank-node-named graphs; GRAPH ?g ranges over them, so a template may name them too)
+            if gk is not None and gk[0] in ("u", "b") and None not in tr and _legal(*tr):
                 out.append((gk, tr))
     return out
 
